@@ -66,6 +66,12 @@ fn main() {
             checks::c08::debug(&args);
             std::process::exit(0);
         }
+        ("C09", None) => checks::c09::run(&ctx),
+        ("C09", Some(r)) => checks::c09::replay(&ctx, &r["case"]),
+        ("C09DBG", _) => {
+            checks::c09::debug(&args);
+            std::process::exit(0);
+        }
         ("C05", None) => checks::cfgstate::run_c05(&ctx),
         ("C06", None) => checks::cfgstate::run_c06(&ctx),
         ("C07", None) => checks::cfgstate::run_c07a(&ctx),
